@@ -32,6 +32,30 @@ CHECKS = {
     "C10": dict(level=MC, design="5/C10 + notes/vss.md", technique="per-observer TLA+ aggregator spec (VSSAgg, requirement + implementation layers, both variants and roles) and VSSSystem model-checked with TLC; transition-tour and simulated behaviours replayed on real Dealer/Verifier objects; recorded and hook traces (incl. the repository's own tests) validated by VSSAggTrace",
                 text="TLC exhausts the aggregator model (deal kinds, responses incl. duplicate/forged/wrong-session/out-of-range, justifications incl. unsigned/other-index/alternative-commitments, timeout anywhere) for N<=5 (thorough <=7) and checks NoBadApproval, CertifiedSound, BadDealerSticky, Refines etc.; every (abstract state, action) pair becomes one replay against real pedersen/rabin objects with outcome sets, response table, DealCertified/EnoughApprovals and recovery from T-subsets compared after every step; traces recorded from randomized drivers and from go test -tags verif ./share/vss/... are validated by TLC.",
                 note="trusted: TLC, the harness-side envelope (ECDH+HKDF+AES-GCM) used for malformed plaintexts, Schnorr unforgeability; finite menus of deal/response/justification classes"),
+    "C04": dict(level=MC, design="5/C04 + notes/codec.md", technique="case-lattice TLA+ spec (Decode: input classes x profiles x follow-up operations, composite parsers) model-checked with TLC incl. meta-properties; behaviours replayed with refmodel-certified witnesses; recorded decode logs validated by DecodeTrace",
+                text="TLC enumerates every input class (length x format x range x membership x flags) for 8 point profiles, the scalar profile and 17 composite parsers with follow-up operations and checks Total / AcceptOnlyMembers / FreedomExplicit; the harness produces certified witnesses per class with an independent math/big model, feeds them to every decoder, and both replays TLC's behaviours and validates ~35k recorded (class, outcome, follow-up) runs against the trace spec; panics are 'crash', which is never allowed.",
+                note="trusted: TLC, harness refmodel (math/big curves, Fp2), witness certification; wrong-length and non-canonical inputs are free (accept or reject) but every accepted value is re-classified as a member"),
+    "C07": dict(level=MC, design="5/C07 + notes/share.md", technique="TLA+ spec of Shamir sharing over tiny real groups (Shamir.tla computes Lagrange interpolation in Z_q) model-checked with TLC; exact replay on kyber's generic code over p256.ResidueGroup(23,11,4) etc., lifted replay on large groups",
+                text="The spec works in the same finite groups as kyber's residue group at (23,11,4), (11,5,4), (47,23,4): TLC checks that any >= t distinct shares (all subsets/orders/nil/surplus/duplicate patterns) reconstruct secret, commitment and polynomial, fewer are refused, Check(i,v) iff v=f(i+1), Add/Mul commute with evaluation; every value TLC computes is compared numerically with the real code (exact), and the same slice shapes run for n<=12 (thorough <=24) on eight large groups against the dealer's polynomial (lifted).",
+                note="trusted: TLC arithmetic in Z_q, scripted polynomial construction; large-group runs compare against the dealer's own polynomial"),
+    "C12": dict(level=MC, design="5/C12 + notes/share.md", technique="TLA+ spec of DSS participants (accepted set, signed flag; embeds Shamir) model-checked with TLC; behaviours replayed on real dss objects with keys from both DKGs; recorded and hook traces validated by DSSTrace",
+                text="TLC exhausts n=3,4 (all t, arrival orders, <=2 injected bad partials per participant: bad value, forged, other session, other message, duplicate, bad index, own partial first) and checks OnlyValidContribute, NoSigBelowT, AllSignaturesEqual, RejectIsNoop; maximal behaviours, a transition tour and random walks (n<=7) are replayed on real DSS objects (Pedersen DKG, Rabin DKG and dealer keys) comparing result class, EnoughPartialSig, Signature and byte-equality at all combiners, with dss/eddsa/crypto-ed25519 verification; traces of a randomized driver and of the package's own tests are validated by TLC.",
+                note="trusted: TLC, honest DKG runs in the harness to obtain keys, crypto/ed25519; replay of the two-bad-partials space is restricted in the thorough tier (model check covers it fully)"),
+    "C16": dict(level=MC, design="5/C16 + notes/codec.md", technique="case-lattice TLA+ spec (Encrypt: scheme x length class x key relation x ciphertext alteration) model-checked with TLC; behaviours replayed on ECIES, IBE (CCA/CPA, both assignments, 3 back-ends) and anonymous-set encryption with leak scan",
+                text="TLC enumerates every (scheme, length class, key relation, field alteration/truncation) and gives the verdict ok(m)/error; the replayer performs each alteration on real ciphertexts (fresh copy per decryption), compares the verdict, treats panics and different plaintexts as violations and scans accepted ciphertexts for plaintext blocks.",
+                note="trusted: TLC; computational hiding/authenticity are approached by finite alteration menus; two recorded known findings (unkeyed anon MAC; IBE-CCA of the empty message)"),
+    "C19": dict(level=MC, design="5/C19 + notes/xof.md", technique="TLA+ spec of XOF handles as (transcript, position, mode) (XOF.tla), TinyField/RandStream specs of util/random, model-checked with TLC; behaviours replayed on blake2xb, blake2xs, keccak against a single-shot reference; recorded op logs validated by XOFTrace",
+                text="TLC checks that chunking, cloning and reseeding never change (transcript, position), Write-after-squeeze needs Reseed, Reset of a factory handle returns to the seeded state, and generates op sequences over two handles (exhaustive small depth, simulated to 30 steps); each is replayed on the three implementations against a handle built single-shot from the abstract transcript. random.Int/Bits are exact against the TLC model for moduli 1..17 over scripted streams (value and bytes consumed) and structural for moduli up to 521 bits; the multi-reader stream is checked for determinism, dependence on every reader and survival of failing readers.",
+                note="trusted: TLC, single-shot reference built with New/Write/Read of the same implementation (so agreement across chunkings, not absolute test vectors), scripted streams; 'without modulo bias' is exact only for small moduli"),
+    "C20": dict(level="exploration", design="5/C20 + notes/xof.md", technique="TLA+ footprint spec (SharedRead) model-checked with TLC enumerates read-only workloads; each workload executed by a -race build of the harness on shared objects, race reports attributed to kyber frames, results compared with sequential values",
+                text="TLC checks NoConflict and ResultsSequential on the footprint model and enumerates the workloads (423 pairs, 1737 triples in thorough) of read-only operations on shared points (21 groups, decoded and non-normalised), scalars, suites, pairing suites, masks, public polynomials and verifiers; the race-built driver runs every workload with goroutines released by a barrier; a Go race report whose stack touches kyber, or a result differing from the sequential one, is the violation. Schedules are explored by the race detector's happens-before analysis, not by TLC, hence level exploration.",
+                note="trusted: Go race detector, barrier-released goroutines with 1-12 repetitions; proof.HashVerify, shuffle verifiers and DKG/VSS objects are not covered"),
+    "C08": dict(level=MC, design="5/C08 + notes/sig.md", technique="case-lattice TLA+ spec (SigVerify: semantic signature records, tamper set, verdict operator with meta-properties) model-checked with TLC; behaviours replayed on Schnorr (20 groups), EdDSA and ring signatures with math/big-certified concretisers and crypto/ed25519 cross-checks",
+                text="TLC checks Total, AcceptImpliesUntouched, TamperMonotone, FreedomExplicit, StrictNoSecondEncoding and LinkSound over the whole case space and emits every Sign/Craft; Tamper*; Verify behaviour (ring sizes 1..8, every position, scope, single tampers; pairs in thorough); the replayer performs each abstract tamper on real bytes (S+L, R+torsion, non-canonical y, small-order points certified by a math/big Ed25519 model), compares verdicts, checks RFC 8032 byte-equality with crypto/ed25519, 'kyber accepts => crypto/ed25519 accepts', and tag linkage.",
+                note="trusted: TLC, math/big Ed25519 reference, crypto/ed25519; unforgeability is approached by a finite tamper menu; strict canonicity is demanded only at the VerifyWithChecks entry points that promise it"),
+    "C09": dict(level=MC, design="5/C09 + notes/sig.md", technique="TLA+ spec (MultiSig: BLS, TBLS partial lists, BDN/CoSi mask objects) model-checked with TLC; behaviours replayed on the 8 (suite, signature group) combinations; mask op traces recorded from real masks validated by MaskTrace",
+                text="TLC enumerates partial-signature lists (valid/invalid/duplicate/garbage/wrong-message/short, any order, 2<=t<=n<=5), mask programs (constructor variants, SetBit, SetMask, Merge, Clone) and CoSi policies with the verdicts Recover ok iff >= t distinct valid indices, aggregate verifies iff mask and message match; the replayer runs them on real bls/tbls/bdn/cosi objects (two combinations exhaustively per seed, the rest sampled), compares recovered signatures byte-for-byte with signing under the group secret; recorded mask traces are validated by TLC.",
+                note="trusted: TLC, pairing suites for verification; n<=8 by simulation; TBLS n=5 replayed with <=1 junk/duplicate"),
 }
 
 NOT_YET = {
